@@ -7,7 +7,7 @@ MANIFEST = dict(
    note="Trusted: Lean kernel; axioms propext/Classical.choice/Quot.sound at most; Go harness + comparer; the classification of checks that do nothing on a raw pointer payload (vacU). Built-in check evaluations are not observable (only user callbacks are logged). Value threading over the whole callback log is false for pointer inputs with overwrites (the pointer pass after acceptance calls When guards on the un-overwritten payload): witness c10_first_pass_witness, open finding; c10_value_threading_partial states the excluded region. The defects of the code before 49e6e91 are kept as theorems about legacyRunChecksOn / legacyRunChecksC. Non-string pointer inputs with overwrites are not generated.",
    design="DESIGN.md §5 C10; notes/C10.md")
 
-MODULES = ["Gozod.Proofs.C10", "Gozod.Proofs.C10C"]
+MODULES = ["Gozod.Proofs.C10", "Gozod.Proofs.C10C", "Gozod.Proofs.C10G"]
 THEOREMS = ["Gozod.C10." + t for t in [
     "runChecks_post", "c10_value_threading", "c10_issue_order", "c10_first_failing", "c10_abort_stops",
     "c10_ok_iff_no_fail", "c10_ok_value", "firstPass_early", "c10_runOn_issues", "c10_runOn_ok_iff",
@@ -16,7 +16,10 @@ THEOREMS = ["Gozod.C10." + t for t in [
     "c10_abort_stops_all", "c10_legacy_runOn_issues", "c10_legacy_first_pass_witness",
     "firstPassC_cooked", "firstPassC_vacFree", "runFrom_issues_ne_nil", "firstPassC_of_ok", "c10_container_all",
     "c10_container_ok_iff", "c10_container_abort", "c10_legacy_container_partial", "c10_legacy_container_witness",
-    "parsePipelineK_erase", "parsePipelineT_typed", "c10_pipeT_ok_iff", "c10_base_type_error"]]
+    "parsePipelineK_erase", "parsePipelineT_typed", "c10_pipeT_ok_iff", "c10_base_type_error",
+    "firstPassG_cooked", "firstPassG_issues_ne_nil", "firstPassG_of_ok", "c10_generic_all", "c10_generic_ok_iff", "c10_generic_abort",
+    "firstPassG_container", "runChecksG_container", "firstPassG_string", "runChecksG_string",
+    "c10_baseG_ok_iff", "c10_baseG_ok_value", "c10_baseG_type_error", "c10_pipeG_ok_iff", "c10_pipeG_first_fails", "c10_transformG_once"]]
 
 def key(op, impl, M, S):
     how = C.op_comment(op)
